@@ -913,3 +913,74 @@ func ruleC07R2(c *Ctx) {
 	}
 	c.floor("C07.R2", "explicit panic sites in the runtime set", n, 3)
 }
+
+// ---------------------------------------------------------------------------
+// R1h (added after seed c10f; registered as C10.R6 too): a variable shift count stays below the operand's width. Go does
+// not panic on `1 << n` with n >= 64: the result is 0 — a bit set indexed by an unbounded number silently has no members
+// from 64 on (a field mask that stops hiding fields, a character class that stops matching). For every shift by a
+// non-constant count in the per-record universe and in the constructors that build what it uses, the facts engine must
+// show count <= width-1; a count masked with `& (width-1)` or taken `% width` is bounded by construction.
+func init() {
+	register("C07", "C07.R1h", ruleShiftCount)
+	register("C10", "C07.R1h", ruleShiftCount)
+}
+
+var shiftReviewed = map[string]string{}
+
+func ruleShiftCount(c *Ctx) {
+	pr := c.f6()
+	n := 0
+	for _, fn := range c.P.universe {
+		if fn.Blocks == nil {
+			continue
+		}
+		eachInstr(fn, func(in ssa.Instruction) {
+			bo, ok := in.(*ssa.BinOp)
+			if !ok || (bo.Op != token.SHL && bo.Op != token.SHR) {
+				return
+			}
+			if _, isK := strip(bo.Y).(*ssa.Const); isK {
+				return
+			}
+			bt, ok := bo.X.Type().Underlying().(*types.Basic)
+			if !ok {
+				return
+			}
+			width := int64(intBits(bt))
+			if width == 0 {
+				return
+			}
+			n++
+			construct := "shift count " + canonOf(bo.Y) + " < " + fmt.Sprint(width)
+			// bounded by construction: y & k, y % k with constant k
+			y := strip(bo.Y)
+			for i := 0; i < 3; i++ {
+				if cv, ok := y.(*ssa.Convert); ok {
+					y = strip(cv.X)
+				}
+			}
+			if mb, ok := y.(*ssa.BinOp); ok {
+				if k, isK := constInt(mb.Y); isK {
+					if (mb.Op == token.AND && k >= 0 && k < width) || (mb.Op == token.REM && k > 0 && k <= width && !isSigned(mb.X.Type())) {
+						c.ok("C07.R1h", fn, construct, in.Pos(), "the count is masked / reduced to less than the width")
+						return
+					}
+				}
+			}
+			if pr.prove(fn, in, valT(bo.Y), zeroT(), width-1, nil) {
+				c.ok("C07.R1h", fn, construct, in.Pos(), "proved by the facts engine")
+				return
+			}
+			key := anchorName(fn) + "|" + canonOf(bo.Y)
+			if why, ok := lookupReviewed(shiftReviewed, key); ok {
+				c.assumed("C07.R1h", fn, construct, in.Pos(), "reviewed: "+why)
+				return
+			}
+			if os.Getenv("SLOGCHECK_F6KEYS") != "" {
+				fmt.Printf("SHIFTKEY %q: \"\",\n", key)
+			}
+			c.bad("C07.R1h", fn, construct, in.Pos(), fmt.Sprintf("the shift count is not shown to stay below %d: Go yields 0 for larger counts without any error — a bit set built or tested this way silently has no members from %d on", width, width))
+		})
+	}
+	c.count("C07.R1h:variable shifts", n)
+}
